@@ -291,16 +291,48 @@ impl io::Write for ScriptWriter {
     }
 }
 
-/// Poll a future to completion with a no-op waker (all our transports are
-/// immediately re-pollable).  Returns the number of Pending results seen.
+/// The task's waker: a flag. Every scripted transport wakes WHATEVER waker it is handed before it returns
+/// Pending (what an executor-driven transport does when it becomes ready again), so a future that returns
+/// Pending without this flag having been set has parked the task on a waker nobody will wake — under a real
+/// executor it would never complete.
+pub struct FlagWaker(pub std::sync::atomic::AtomicBool);
+
+impl std::task::Wake for FlagWaker {
+    fn wake(self: std::sync::Arc<Self>) {
+        self.0.store(true, std::sync::atomic::Ordering::SeqCst);
+    }
+    fn wake_by_ref(self: &std::sync::Arc<Self>) {
+        self.0.store(true, std::sync::atomic::Ordering::SeqCst);
+    }
+}
+
+pub fn task_waker() -> (std::sync::Arc<FlagWaker>, std::task::Waker) {
+    let f = std::sync::Arc::new(FlagWaker(std::sync::atomic::AtomicBool::new(false)));
+    (f.clone(), std::task::Waker::from(f))
+}
+
+/// after a Pending result: was the task woken? (resets the flag)
+pub fn woken(f: &FlagWaker) -> bool {
+    f.0.swap(false, std::sync::atomic::Ordering::SeqCst)
+}
+
+pub const LOST_WAKEUP: &str = "LostWakeup(Pending returned although the transport woke a waker that is not the task's)";
+
+/// Poll a future to completion, re-polling only because the task's waker was woken (all our transports wake
+/// the waker they are given).  Returns the number of Pending results seen.
 pub fn drive<F: std::future::Future>(mut fut: Pin<&mut F>) -> (F::Output, usize) {
-    let waker = std::task::Waker::noop();
-    let mut cx = Context::from_waker(waker);
+    let (flag, waker) = task_waker();
+    let mut cx = Context::from_waker(&waker);
     let mut pend = 0;
     loop {
         match fut.as_mut().poll(&mut cx) {
             Poll::Ready(v) => return (v, pend),
-            Poll::Pending => pend += 1,
+            Poll::Pending => {
+                pend += 1;
+                if !woken(&flag) {
+                    panic!("{}", LOST_WAKEUP);
+                }
+            }
         }
         if pend > 1_000_000 {
             panic!("future spins");
